@@ -589,6 +589,9 @@ func cycles(n int, failEvery int, base int) CycleReport {
 	if base == 1 {
 		baseCtx = appCtx
 	}
+	// base 2: the cycles run *under one long-lived parent scope*; every child is created from a context derived from
+	// the parent's, carrying a 32 KiB request payload - what a closed child keeps reachable shows in the heap
+	type payloadKey struct{}
 	var created, closed int64
 	coll := godi.NewCollection()
 	coll.AddSingleton(func() *sSingleton { return &sSingleton{} })
@@ -620,11 +623,21 @@ func cycles(n int, failEvery int, base int) CycleReport {
 		return int64(ms.HeapAlloc) / 1024
 	}
 	tS := reflect.TypeOf((*sScoped)(nil))
+	var longLived godi.Scope
+	if base == 2 {
+		longLived, _ = p.CreateScope(appCtx)
+	}
 	for i := 0; i < n; i++ {
 		if i == n/2 {
 			rep.HeapKBHalf = heap()
 		}
-		sc, err := p.CreateScope(baseCtx)
+		var sc godi.Scope
+		var err error
+		if longLived != nil {
+			sc, err = longLived.CreateScope(context.WithValue(longLived.Context(), payloadKey{}, make([]byte, 32<<10)))
+		} else {
+			sc, err = p.CreateScope(baseCtx)
+		}
 		if err != nil {
 			rep.FailedCreate++
 			// the context derived for the scope that could not be created must not stay alive
@@ -652,7 +665,10 @@ func cycles(n int, failEvery int, base int) CycleReport {
 		}
 	}
 	_ = closed
-	rep.HeapKBEnd = heap()
+	rep.HeapKBEnd = heap() // (with the long-lived parent still open)
+	if longLived != nil {
+		_ = longLived.Close()
+	}
 	rep.ScopesLeft = godi.VerifScopeCount(p)
 	for k := 0; k < 100 && runtime.NumGoroutine() > rep.Goroutines0; k++ {
 		time.Sleep(10 * time.Millisecond)
@@ -679,7 +695,13 @@ func cmdConc(args []string) {
 	probe := fs.Bool("probe", false, "")
 	oprobe := fs.Bool("orderprobe", false, "")
 	vprobe := fs.Bool("overlapprobe", false, "")
+	kprobe := fs.Bool("createprobe", false, "")
 	fs.Parse(args)
+	if *kprobe {
+		b, _ := json.Marshal(createProbe())
+		fmt.Println(string(b))
+		return
+	}
 	if *vprobe {
 		b, _ := json.Marshal(overlapProbe())
 		fmt.Println(string(b))
@@ -701,7 +723,7 @@ func cmdConc(args []string) {
 		return
 	}
 	if *cyc > 0 {
-		reps := []CycleReport{cycles(*cyc, 0, 0), cycles(*cyc, 7, 0), cycles(*cyc, 5, 1)}
+		reps := []CycleReport{cycles(*cyc, 0, 0), cycles(*cyc, 7, 0), cycles(*cyc, 5, 1), cycles(*cyc, 6, 2)}
 		b, _ := json.Marshal(reps)
 		fmt.Println(string(b))
 		return
